@@ -347,22 +347,25 @@ theorem C12_fmtG_chars (p : Nat) (x : XR) :
 
 /-! ### which descriptors identify a threshold slice -/
 
-/- FULL statement (does NOT hold for the code as it is — known finding csv-field-axis-descriptor /
-   csv-field-axis-crash):
-     theorem C12_descs (csv : Bool) (ax : AxisKind) (hax : ax ≠ .other) (thr : κ) (ad : List (Str × κ)) :
-         (selectDescs csv ax thr ad).map (·.2) = [thr]
-   i.e. for every threshold-like axis (threshold, obs, fcst) the leading field of row i is threshold i.
-   `Output.csv` lacks the Obs/Fcst branch that `Output.text` has, so for `-type csv -x obs|fcst` the
-   placeholder column of `Data.get_axis_descriptions` ([0]) is printed (and indexing it by row raises
-   IndexError as soon as there are two thresholds).  Proved below under the hypothesis the defect forces,
-   with the failing instance as a witness (the harness replays it: `seldesc csv obs`). -/
-theorem C12_descs_partial {κ : Type} (csv : Bool) (ax : AxisKind) (hax : ax ≠ .other)
-    (h : csv = false ∨ ax = .threshold) (thr : κ) (ad : List (Str × κ)) :
-    (selectDescs csv ax thr ad).map (·.2) = [thr] := by
-  cases ax <;> rcases h with h | h <;> simp_all [selectDescs]
+/-- For every threshold-like axis (`-x threshold|obs|fcst`) and both writers the descriptor column is
+`self.thresholds`: the leading field of row i is threshold i, under the header name Threshold / Observed /
+Forecasted.  (Full strength since /repo b4341a8 gave `Output.csv` the Obs/Fcst branches of `Output.text`;
+before, csv printed the placeholder column of `Data.get_axis_descriptions`.) -/
+theorem C12_descs {κ : Type} (csv : Bool) (ax : AxisKind) (hax : ax ≠ .other) (thr : κ)
+    (ad : List (Str × κ)) :
+    (selectDescs csv ax thr ad).map (·.2) = [thr] ∧
+    (selectDescs csv ax thr ad).map (·.1) =
+      [match ax with
+        | .threshold => "Threshold".toList | .obs => "Observed".toList
+        | .fcst => "Forecasted".toList | .other => []] := by
+  cases ax <;> cases csv <;> first | exact absurd rfl hax | simp [selectDescs]
 
-/-- the witness: csv with the obs axis prints the axis placeholder, not the thresholds -/
-example : (selectDescs true .obs "T" [("Obs".toList, "A")]).map (·.2) = ["A"] := by decide
+/-- every other axis is described by `Data.get_axis_descriptions` -/
+theorem C12_descs_other {κ : Type} (csv : Bool) (thr : κ) (ad : List (Str × κ)) :
+    selectDescs csv .other thr ad = ad := rfl
+
+/-- non-vacuity / test: csv with the obs axis names the column Observed and prints the thresholds -/
+example : selectDescs true .obs "T" [("Obs".toList, "A")] = [("Observed".toList, "T")] := by decide
 
 /-! ### `-f` -/
 
